@@ -132,7 +132,7 @@ PROPS = {
         assumptions=["panics or super-linear behaviour inside Go's regexp/strconv/fmt/sort are outside the model: that part is search (recover + deadline), labelled as such"],
     ),
     "C20": dict(
-        runs=[tie(parse_run("perm", "11111111", 3000, 100000, extra=["-repeat", "6"])), tie(dispatch_run("help", "11111111", "111111", 1500, 50000)), build_run(1500, 60000, "build", scope="all"), tie(dict(complete_run(1500, 60000), extra=["-repeat", "4"]))],
+        runs=[tie(parse_run("perm", "11111111", 3000, 100000, extra=["-repeat", "6"])), tie(dict(dispatch_run("help", "11111111", "111111", 1500, 50000), extra=["-repeat", "4"])), build_run(1500, 60000, "build", scope="all"), tie(dict(complete_run(1500, 60000), extra=["-repeat", "4"]))],
         coq_sample=10,
         rule="definitions with several candidates for every diagnostic (missing required options, unknown options, ambiguous prefixes); each case is executed 6 times on fresh definitions (Go randomises map order per range) and all observables incl. error text, warnings and help text must be byte-identical; the model is evaluated on the dumped table order and on every table reversed; non-trivial = the root has >= 2 options",
         assumptions=["cross-process determinism is covered only through repeated in-process definitions (map iteration is randomised per range statement, not per process)"],
